@@ -157,7 +157,14 @@ fn main() {
                 let r_off = run::run_real(&src, None, off);
                 if let (run::Outcome::Ok(t_on), run::Outcome::Ok(t_off)) = (&r_on, &r_off) {
                     match (verif_harness::facts::extract(t_on), verif_harness::facts::extract(t_off)) {
-                        (Ok(f_on), Ok(f_off)) => {
+                        (Ok(mut f_on), Ok(mut f_off)) => {
+                            // items the reader does not understand are kept as raw token text, which differs between the two
+                            // printers; they are reported by the correspondence, not judged here
+                            for f in [&mut f_on, &mut f_off] {
+                                if let verif_harness::sexp::Sexp::List(v) = f {
+                                    v.retain(|c| !matches!(c, verif_harness::sexp::Sexp::List(cv) if matches!(cv.first(), Some(verif_harness::sexp::Sexp::Atom(a)) if a == "unknown")));
+                                }
+                            }
                             if f_on != f_off {
                                 bad.push(format!("rustfmt on/off describe different programs in call {k} of the A,B,A sequence"));
                             }
